@@ -149,3 +149,85 @@ let handle_bulk (toks : string list) : (string * string * string) option =
          else if counted_good l p count elsz then "OK " ^ string_of_z p else "ABORT" in
        Some (m, ss, "usp" ^ (if m <> ss then ":kf=D7" else ""))
      | _ -> None)
+
+(* ---------------- C03 chains, C04 translation paths, C02 raw pointer entry points ---------------- *)
+let ps_fields = [TInt IInt; TInt ILong; TInt IChar; TInt ILLong; TPtr]
+let field_index = function "a" -> 0 | "b" -> 1 | "c" -> 2 | "d" -> 3 | _ -> 4
+let app_elsz = function "char" -> 1 | "int" -> 4 | _ -> 40
+
+let parse_pop cfg (tok : string) : pop =
+  match String.split_on_char ':' tok with
+  | ["a"; sub; n; pt] -> OpArith (sub = "1", zs n, sizeof (lab cfg) (ptee_of_string pt))
+  | ["i"; n; pt] -> OpIndex (zs n, sizeof (lab cfg) (ptee_of_string pt))
+  | ["f"; x] -> OpField (List.nth (offsets (lab cfg) ps_fields) (field_index x))
+  | ["e"; i] -> OpElem (zs i, z_of_int 4, z_of_int 4)
+  | ["c"] -> OpCast
+  | ["l"; rep] -> OpLoadPtr (zs rep)
+  | ["g"; rep] | ["cb"; rep] -> OpFromGuest (zs rep)
+  | ["m"; count; elk; ret] -> OpMalloc (zs count, z_of_int (app_elsz elk), zs ret)
+  | ["r"; a] | ["u"; a] -> OpAssignRaw (zs a)
+  | ["n"] -> OpNull
+  | _ -> failwith ("bad chain op " ^ tok)
+
+let inv_ok s q = (q = Z0) || (Z.leb s.rbase q && Z.ltb q (Z.add s.rbase s.rsize))
+
+let handle_chain (toks : string list) : (string * string * string) option =
+  match toks with
+  | [] -> None
+  | op0 :: args ->
+    let (op, cfg) = split_op op0 in
+    let l = world cfg in
+    let sa = List.hd l in
+    (match op, args with
+     | "chain", (start :: ops) ->
+       let start = zs start in
+       let pops = List.map (parse_pop cfg) ops in
+       let m = run_chain idxchk l sa start pops in
+       let safe = fields_safe idxchk l sa start pops in
+       let ms = string_of_res string_of_z m in
+       let ss = (match m with Ok q when not (inv_ok sa q) -> "ABORT" | _ -> ms) in
+       let cls = "chain:len" ^ string_of_int (List.length pops) ^
+                 (match m with Ok _ -> ":ok" | Abort -> ":abort" | Fault -> ":fault" | _ -> ":?") ^
+                 (if not safe then ":unsafe-field" else "") ^
+                 (if ms <> ss && not safe then ":kf=D5" else "") in
+       Some (ms, ss, cls)
+     | "xlate", (path :: dir :: v :: rest) ->
+       let v = zs v in
+       let ex = (match rest with [e] -> zs e | _ -> Z0) in
+       let toapp = (dir = "toapp") in
+       let s = (if ex = Z0 then sa else match region_of l ex with Some r -> r | None -> sa) in
+       let psz = (lab cfg).l_ptr in
+       let r = (match path with
+           | "ctx" -> "OK " ^ string_of_z (if toapp then unsandbox s v else sandbox_ptr s v)
+           | "noctx" -> string_of_res string_of_z (if toapp then unsandbox_noctx l v ex else sandbox_ptr_noctx l v ex)
+           | "cell" -> string_of_res string_of_z (if toapp then load_ptr_cell l ex v else store_ptr_cell l ex v)
+           | "arr" ->
+             let cell = Z.add ex (Z.mul (z_of_int 2) psz) in
+             string_of_res (fun x -> string_of_z x ^ " e0=0") (if toapp then load_ptr_cell l cell v else store_ptr_cell l cell v)
+           | "field" ->
+             let cell = Z.add ex (z_of_int 24) in
+             if toapp then
+               (match load_ptr_cell l ex v, load_ptr_cell l cell v with
+                | Ok a, Ok b -> "OK " ^ string_of_z a ^ " field=" ^ string_of_z b
+                | _ -> "ABORT")
+             else string_of_res string_of_z (store_ptr_cell l ex v)
+           | "ret" | "cbarg" -> "OK " ^ string_of_z (unsandbox sa v)
+           | "arg" | "cbret" | "free" -> "OK " ^ string_of_z (sandbox_ptr sa v)
+           | "argnull" -> "OK 0"
+           | _ -> failwith "xlate path") in
+       (* C03 on top of C04: an address obtained from guest bits must be null or inside s *)
+       let spec = (if toapp then
+                     (match String.split_on_char ' ' r with
+                      | "OK" :: a :: _ when not (inv_ok s (zs a)) -> "ABORT"
+                      | _ -> r)
+                   else r) in
+       Some (r, spec, "xlate:" ^ path ^ ":" ^ dir ^ (if v = Z0 then ":null" else ""))
+     | "rawptr", [kind; a] ->
+       let a = zs a in
+       let m = (match kind with
+           | "tvol" -> string_of_res string_of_z (assign_raw_pointer_vol sa a)
+           | _ -> string_of_res string_of_z (assign_raw_pointer sa a)) in
+       let inside = inv_ok sa a && a <> Z0 in
+       let s = if inside then m else "ABORT" in
+       Some (m, s, "rawptr:" ^ kind ^ (if inside then ":inside" else ":outside"))
+     | _ -> None)
